@@ -59,6 +59,18 @@ class IOBase:
             raise ValueError("I/O operation on closed file.")
         return self
 
+    def __del__(self):
+        # like _io._IOBase: the finalizer closes an open stream, errors are swallowed
+        try:
+            closed = self.closed
+        except Exception:
+            return
+        if not closed:
+            try:
+                self.close()
+            except Exception:
+                pass
+
     def __exit__(self, *a):
         self.close()
 
